@@ -14,22 +14,24 @@ package gcsca
 //@ func (*CertificateAuthority).writeIfAllowed
 //@   requires ca != nil && ca.Storage != nil
 //@   assigns nothing
-//@   modifies diskHas, wroteAfterManifest, manifestWrites, objWrites, curObj, wroteFull
+//@   modifies diskHas, wroteAfterManifest, manifestWrites, objWrites, curObj, wroteFull, clobbers, diskData
 //@   ensures[C11] err == nil ==> diskHas[path]
 //@   ensures[C11] forall(o, string, old(diskHas)[o] ==> diskHas[o])
 //@   ensures[C11] path != "keyManifest.textproto" ==> manifestWrites == old(manifestWrites)
 //@   ensures[C11] old(manifestWrites) == 0 ==> wroteAfterManifest == old(wroteAfterManifest)
 //@   ensures[C12] old(diskHas)[path] && !allowOverwrite(ctx) ==> objWrites == old(objWrites)
+//@   ensures[C12] !allowOverwrite(ctx) ==> clobbers == old(clobbers)
 
 // entriesStored: every manifest entry names an object present on the ghost disk.
 //@ func (*CertificateAuthority).upload
 //@   requires ca != nil && ca.Storage != nil && manifest != nil
 //@   requires[C11] forall(i, 0 <= i && i < len(manifest.Entries) ==> manifest.Entries[i] != nil && diskHas[manifest.Entries[i].ObjectPath] && manifest.Entries[i].ObjectPath != "keyManifest.textproto")
 //@   assigns manifest.Entries, manifest.Entries[*]
-//@   modifies diskHas, wroteAfterManifest, manifestWrites, objWrites, curObj, wroteFull
+//@   modifies diskHas, wroteAfterManifest, manifestWrites, objWrites, curObj, wroteFull, clobbers, diskData
 //@   ensures[C11] forall(i, 0 <= i && i < len(manifest.Entries) ==> manifest.Entries[i] != nil && diskHas[manifest.Entries[i].ObjectPath] && manifest.Entries[i].ObjectPath != "keyManifest.textproto")
 //@   ensures[C11] forall(o, string, old(diskHas)[o] ==> diskHas[o])
 //@   ensures[C11] manifestWrites == old(manifestWrites) && (old(manifestWrites) == 0 ==> wroteAfterManifest == old(wroteAfterManifest))
+//@   ensures[C12] !allowOverwrite(ctx) ==> clobbers == old(clobbers)
 //@   ensures[C11] err == nil && result0 != nil ==> exists(i, 0 <= i && i < len(manifest.Entries) && manifest.Entries[i].KeyVersionName == keyVersionName)
 
 //@ func (*CertificateAuthority).certObjectName
@@ -53,7 +55,7 @@ package gcsca
 //@ func (*CertificateAuthority).writeManifest
 //@   requires ca != nil && ca.Storage != nil
 //@   assigns nothing
-//@   modifies diskHas, wroteAfterManifest, manifestWrites, objWrites, curObj, wroteFull, marshalOf
+//@   modifies diskHas, wroteAfterManifest, manifestWrites, objWrites, curObj, wroteFull, clobbers, diskData, marshalOf
 //@   ensures[C11] (manifestWrites == old(manifestWrites) && wroteAfterManifest == old(wroteAfterManifest)) || (manifestWrites == old(manifestWrites) + 1 && wroteAfterManifest == (old(wroteAfterManifest) || old(manifestWrites) > 0))
 //@   ensures[C11] err == nil ==> manifestWrites == old(manifestWrites) + 1
 //@   ensures[C11] forall(o, string, old(diskHas)[o] ==> diskHas[o])
@@ -62,7 +64,7 @@ package gcsca
 //@   requires ca != nil && ca.Storage != nil && ca.RootPath != "keyManifest.textproto" && ctx != nil
 //@   requires[C11] manifestWrites == 0 && !wroteAfterManifest && storeConsistent
 //@   requires[C11] ca.manifest != nil ==> forall(i, 0 <= i && i < len(ca.manifest.Entries) ==> ca.manifest.Entries[i] != nil && diskHas[ca.manifest.Entries[i].ObjectPath] && ca.manifest.Entries[i].ObjectPath != "keyManifest.textproto")
-//@   modifies diskHas, wroteAfterManifest, manifestWrites, objWrites, curObj, wroteFull, marshalOf, pbsrc, pbok
+//@   modifies diskHas, wroteAfterManifest, manifestWrites, objWrites, curObj, wroteFull, clobbers, diskData, marshalOf, pbsrc, pbok
 //@   sweep[C11] nilinvoke nilmap
 //@   ensures[C11] !wroteAfterManifest && manifestWrites <= 1
 //@   ensures[C11] manifestWrites == 1 ==> ca.manifest != nil && forall(i, 0 <= i && i < len(ca.manifest.Entries) ==> ca.manifest.Entries[i] != nil && diskHas[ca.manifest.Entries[i].ObjectPath])
@@ -70,3 +72,17 @@ package gcsca
 //@   loop 1 invariant manifest != nil && manifest == ca.manifest && manifestWrites == 0 && !wroteAfterManifest
 //@   loop 1 invariant forall(i, 0 <= i && i < len(manifest.Entries) ==> manifest.Entries[i] != nil && diskHas[manifest.Entries[i].ObjectPath] && manifest.Entries[i].ObjectPath != "keyManifest.textproto")
 //@   loop 1 invariant forall(o, string, old(diskHas)[o] ==> diskHas[o])
+
+// C03: the certificate served for a key version is the current content of the object its manifest entry
+// names (never a stale copy).
+//@ func (*CertificateAuthority).certPath
+//@   requires ca != nil
+//@   assigns ca.manifest
+//@   modifies pbsrc, pbok
+//@   ensures[C03] err == nil ==> ca.manifest != nil && exists(i, 0 <= i && i < len(ca.manifest.Entries) && ca.manifest.Entries[i] != nil && ca.manifest.Entries[i].KeyVersionName == keyVersionName && result0 == ca.manifest.Entries[i].ObjectPath)
+
+//@ func (*CertificateAuthority).Certificate
+//@   requires ca != nil && ca.Storage != nil
+//@   assigns ca.manifest
+//@   modifies pbsrc, pbok
+//@   ensures[C03] err == nil ==> ca.manifest != nil && exists(i, 0 <= i && i < len(ca.manifest.Entries) && ca.manifest.Entries[i] != nil && ca.manifest.Entries[i].KeyVersionName == keyVersionName && val(result0) == diskData[ca.manifest.Entries[i].ObjectPath])
